@@ -339,6 +339,9 @@ def run(run):
         run.count('fact units')
         run.guard('bit width', bit_width, run, F)
         run.guard('stream rules', stream_rules, run, F, E, semantic[v])
+        # writer and reader work on the caller's buffer, not on a snapshot of it (fields written after a reader was opened are read back)
+        from lint import records as _rec
+        run.guard('streams view the buffer', _rec.views_by_reference, run, 'C13.f', F, ('BitWriteStreamT', 'BitReadStreamT'), 'the stream buffer')
         facts.drop(F)
         cfgmod.clear_cache()
     run.guard('report', static_units.report, run, 'C13.a', 'ubitwidth')
@@ -351,6 +354,7 @@ def run(run):
     run.floor('C13.c', 20)
     run.floor('C13.d', 64)
     run.floor('C13.e', 1)
+    run.floor('C13.f', 2)
     run.explanation = (
         'bitWidth is decided for all 2^32 arguments by evaluating the extracted expression on the end points of the 33 regions '
         'its own threshold tests induce (the checker first verifies that the argument is used in threshold tests only). The '
